@@ -295,7 +295,17 @@ func afterPanicFrame(st string) string {
 // ---- worker life cycle -----------------------------------------------------
 
 // StartWorker prepares journal and watchdog.
+// Resource bounds of a worker. They are far above what any legitimate case of the
+// workloads needs (the deepest nesting in use is 10^4, the longest input 64 KiB) and
+// exist so that a runaway recursion or allocation ends the worker quickly instead of
+// exhausting the machine: a 1 GiB default stack times 16 workers would.
+const (
+	workerMaxStack = 256 << 20
+	workerMaxRSS   = 3 << 30
+)
+
 func (r *Run) StartWorker(startFrom, stopAfter int64) {
+	debug.SetMaxStack(workerMaxStack)
 	r.startFrom = startFrom
 	r.stopAfter = stopAfter
 	r.OneShot = stopAfter > 0
@@ -328,7 +338,14 @@ func (r *Run) watchdog() {
 	var lastSeq int64 = -1
 	var cpuAt time.Duration
 	for {
-		time.Sleep(500 * time.Millisecond)
+		time.Sleep(250 * time.Millisecond)
+		if rss := rssBytes(); rss > workerMaxRSS {
+			fmt.Fprintf(os.Stderr, "VERIF-MEMORY seq=%d rss=%d MiB > %d MiB\n", r.caseSeq.Load(), rss>>20, workerMaxRSS>>20)
+			buf := make([]byte, 1<<16)
+			n := runtime.Stack(buf, true)
+			os.Stderr.Write(buf[:n])
+			os.Exit(3)
+		}
 		seq := r.caseSeq.Load()
 		if seq != lastSeq {
 			lastSeq = seq
@@ -410,4 +427,19 @@ func (r *Run) ReportReplay() int {
 		fmt.Printf("replay: VIOLATED clause=%s key=%q\n  %s\n", v.Clause, Trunc(v.Key, 200), v.What)
 	}
 	return 1
+}
+
+// rssBytes reads the resident set size of this process.
+func rssBytes() int64 {
+	b, err := os.ReadFile("/proc/self/statm")
+	if err != nil {
+		return 0
+	}
+	f := strings.Fields(string(b))
+	if len(f) < 2 {
+		return 0
+	}
+	var pages int64
+	fmt.Sscan(f[1], &pages)
+	return pages * int64(os.Getpagesize())
 }
